@@ -243,6 +243,8 @@ def run_chunk(idx, scens, timeout):
     def annotate(l, o):
         if o.endswith(' switched'):
             return l + ' @switched'
+        if l.startswith(('bloom new', 'bloom2 new')) and o.startswith('ok bits='):
+            return l + ' @bits=' + o[8:]
         if l == 'indexsum' and o.startswith('#indexsum'):
             ms = [':'.join([t.split(':')[0], t.split(':')[2]]) for t in o.split()[1:] if t.count(':') == 3]
             return l + ' @meta=' + ','.join(ms) if ms else l
@@ -268,7 +270,7 @@ def run_chunk(idx, scens, timeout):
     return res
 
 
-PROTO = re.compile(r'^(ok|sweep |alive|dead|switched|noswitch|bad-op|err |found |deleted |notfound|n=|list|counts |#|panic |skipped |crash|trace |snap |bits |some |none|val )')
+PROTO = re.compile(r'^(ok|maybe|no$|offloaded|raw |true|false|sweep |alive|dead|switched|noswitch|bad-op|err |found |deleted |notfound|n=|list|counts |#|panic |skipped |crash|trace |snap |bits |some |none|val )')
 
 
 def is_protocol_line(l):
